@@ -4,7 +4,7 @@ import importlib, os, random
 from vlib import core, corr
 from checks import wire_common as wc
 
-FAMILIES = ["L2", "Ip", "Transport", "App", "Wifi"]
+FAMILIES = ["L2", "Ip", "Ip6", "Transport", "Icmp", "App", "Wifi"]
 FAMILY_AUDITS = [f"Audit/Wire{f}.lean" for f in FAMILIES]
 
 
